@@ -1,4 +1,211 @@
 import Driver.Common
+import AnyioModel.Thread.Portal
 
-/-- placeholder driver: replies `unimplemented` to every request -/
-def main : IO Unit := Driver.serve () (fun s _ => (s, "unimplemented"))
+/-!
+Line-protocol driver for the BlockingPortal model (exe `md_portal`).
+
+Harness-level requests:
+  new
+  issue C sync (v|e)        plain callable that returns / raises
+  issue C coro              coroutine function (blocks on a gate)
+  issue C task (s0|s1)      start_task; s1 = the callable calls task_status.started() at once
+  finish C (v|e)            the gate of C is opened: the coroutine returns / raises
+  cancelfut C | stop (0|1) | exitreq (0|1) | settle | obs | hits
+`settle` plays the loop: `spawn`, `begin`/`beginSync`, `started`, `finish C cancelled` for
+every running call whose own scope or the portal's group has been cancelled (the harness's
+coroutines always let a cancellation propagate), and `exit` once requested.
+`exitreq X` = leaving `start_blocking_portal()` (X = 1: with an exception in the body):
+`stop X` if the portal is still running, then `exit` as soon as it is enabled.
+-/
+namespace Driver.Portal
+open AnyioModel AnyioModel.Thread.Portal
+
+structure DState where
+  s       : State
+  ncalls  : Nat
+  syncOut : List (Nat × Outcome)
+  wantStarted : List Nat
+  exitReq : Bool
+  outs    : List (Nat × String)    -- reply of issue/spawn per call (refusals)
+  hits    : List (String × Nat)
+
+def DState.init : DState :=
+  { s := AnyioModel.Thread.Portal.init, ncalls := 0, syncOut := [], wantStarted := [],
+    exitReq := false, outs := [], hits := [] }
+
+def bump (h : List (String × Nat)) (k : String) : List (String × Nat) :=
+  match h.find? (·.1 = k) with
+  | some _ => h.map (fun p => if p.1 = k then (p.1, p.2 + 1) else p)
+  | none => h ++ [(k, 1)]
+
+def outStr : Out → String
+  | .ok => "ok"
+  | .runtimeError => "runtimeerror"
+  | .env => "env"
+
+def pcStr : Pc → String
+  | .none => "none" | .issued => "issued" | .refused => "refused" | .spawned => "spawned"
+  | .running => "running" | .resolved => "resolved"
+
+def resStr : Res → String
+  | .result n => s!"r:v{n}"
+  | .exception n => s!"r:e{n}"
+  | .cancelled => "cancelled"
+
+def futStr : Fut → String
+  | .pending => "pending"
+  | .done r => resStr r
+
+def statusStr : Status → String
+  | .pending => "pending"
+  | .started n => s!"started{n}"
+  | .failed r => "failed:" ++ resStr r
+  | .noStarted => "nostarted"
+
+def portalStr : PState → String
+  | .running => "running" | .stopping => "stopping" | .stopped => "stopped"
+
+def tagOf (s : State) (e : Ev) (o : Out) : String :=
+  match e with
+  | .issue _ _ => if o = .runtimeError then "issue-refused" else "issue"
+  | .spawn _ => if o = .runtimeError then "spawn-refused" else "spawn"
+  | .beginSync c _ => if s.fut c = .pending then "beginSync" else "beginSync-future-cancelled"
+  | .begin c =>
+    if s.fut c = .pending then (if s.portal = .running then "begin" else "begin-after-stop")
+    else "begin-future-cancelled"
+  | .started _ _ => "started"
+  | .finish c .cancelled => if s.fut c = .pending then "finish-cancelled" else "finish-cancelled-fut-done"
+  | .finish c _ => if s.fut c = .pending then "finish-outcome" else "finish-outcome-dropped"
+  | .cancelFuture c =>
+    match s.fut c with
+    | .done _ => "cancelFuture-noop"
+    | .pending => "cancelFuture@" ++ pcStr (s.pc c) ++ (if s.byStop c then "-bystop" else "")
+  | .stop cr => if cr then "stop-cancel-remaining" else "stop"
+  | .exit => "exit"
+
+def fire (d : DState) (e : Ev) : Option (DState × Out) :=
+  match step d.s e with
+  | none => none
+  | some (s', o) =>
+    let d1 := { d with s := s', hits := bump d.hits (tagOf d.s e o) }
+    let d2 := match e with
+      | .issue c _ => { d1 with ncalls := max d1.ncalls (c + 1) }
+      | _ => d1
+    some (d2, o)
+
+def internal (d : DState) : List Ev :=
+  let cs := List.range d.ncalls
+  let s := d.s
+  cs.map .spawn ++
+  cs.filterMap (fun c => match d.syncOut.find? (·.1 = c) with
+    | some (_, o) => some (.beginSync c o)
+    | none => none) ++
+  cs.map .begin ++
+  (cs.filter (fun c => d.wantStarted.contains c)).map (fun c => .started c c) ++
+  (cs.filter (fun c => decide (s.pc c = .running) && (s.cancelReq c || s.groupCancel))).map
+    (fun c => .finish c .cancelled) ++
+  (if d.exitReq then [.exit] else [])
+
+def fireFirst (d : DState) : List Ev → Option DState
+  | [] => none
+  | e :: es =>
+    match fire d e with
+    | some (d', _) => some d'
+    | none => fireFirst d es
+
+def settle : Nat → DState → DState
+  | 0, d => d
+  | n + 1, d =>
+    match fireFirst d (internal d) with
+    | none => d
+    | some d' => settle n d'
+
+def obs (d : DState) : String :=
+  let s := d.s
+  let cs := List.range d.ncalls
+  let per := cs.map (fun c =>
+    let f := if s.pc c = .refused then "refused" else futStr (s.fut c)
+    let st := if s.kind c = .task then statusStr (s.status c) else "-"
+    s!"{c}={f}/{s.execs c}/{st}")
+  s!"exited={Driver.bool01 (decide (s.portal = .stopped))} live={s.live.length} | " ++
+    " ".intercalate per
+
+def handle (d : DState) : List String → DState × String
+  | ["new"] => ({ DState.init with hits := d.hits }, "ok")
+  | ["obs"] => (d, obs d)
+  | ["settle"] => (settle 10000 d, "ok")
+  | ["hits"] => (d, " ".intercalate (d.hits.map (fun p => s!"{p.1}={p.2}")))
+  | ["state"] =>
+    (d, s!"portal={portalStr d.s.portal} groupcancel={Driver.bool01 d.s.groupCancel}")
+  | "issue" :: c :: rest =>
+    match c.toNat? with
+    | none => (d, "bad-op")
+    | some c =>
+      let plan : Option (Kind × DState) :=
+        match rest with
+        | ["sync", "v"] => some (.sync, { d with syncOut := (c, .val c) :: d.syncOut })
+        | ["sync", "e"] => some (.sync, { d with syncOut := (c, .exc c) :: d.syncOut })
+        | ["coro"] => some (.coro, d)
+        | ["task", "s0"] => some (.task, d)
+        | ["task", "s1"] => some (.task, { d with wantStarted := c :: d.wantStarted })
+        | _ => none
+      match plan with
+      | none => (d, "bad-op")
+      | some (k, d1) =>
+        match fire d1 (.issue c k) with
+        | none => (d, "DISABLED")
+        | some (d2, o) => (d2, outStr o)
+  | ["finish", c, k] =>
+    match c.toNat? with
+    | none => (d, "bad-op")
+    | some c =>
+      let o : Option Outcome := if k = "v" then some (.val c) else if k = "e" then some (.exc c) else none
+      match o with
+      | none => (d, "bad-op")
+      | some o =>
+        match fire d (.finish c o) with
+        | none => (d, "DISABLED")
+        | some (d', r) => (d', outStr r)
+  | ["cancelfut", c] =>
+    match c.toNat? with
+    | none => (d, "bad-op")
+    | some c =>
+      match fire d (.cancelFuture c) with
+      | none => (d, "DISABLED")
+      | some (d', r) => (d', outStr r)
+  | ["stop", cr] =>
+    match Driver.parseBool cr with
+    | none => (d, "bad-op")
+    | some cr =>
+      match fire d (.stop cr) with
+      | none => (d, "DISABLED")
+      | some (d', r) => (d', outStr r)
+  | ["exitreq", x] =>
+    match Driver.parseBool x with
+    | none => (d, "bad-op")
+    | some x =>
+      let d1 := { d with exitReq := true }
+      if d.s.portal = .running then
+        match fire d1 (.stop x) with
+        | none => (d1, "DISABLED")
+        | some (d', _) => (d', "ok")
+      else (d1, "ok")
+  | ["spawn", c] =>
+    match c.toNat? with
+    | none => (d, "bad-op")
+    | some c =>
+      match fire d (.spawn c) with
+      | none => (d, "DISABLED")
+      | some (d', r) => (d', outStr r)
+  | ["begin", c] =>
+    match c.toNat? with
+    | none => (d, "bad-op")
+    | some c =>
+      match fire d (.begin c) with
+      | none => (d, "DISABLED")
+      | some (d', r) => (d', outStr r)
+  | _ => (d, "bad-op")
+
+end Driver.Portal
+
+def main : IO Unit := Driver.serve Driver.Portal.DState.init Driver.Portal.handle
